@@ -220,7 +220,7 @@ M=[
                             Some(parent) if parent.parent().is_some() && path.extension().is_some() => vec![&path, parent],
                             Some(_) => vec![&*path],"""),
  ("c15_reloader_busy_waits","C15","src/hot_reloading/mod.rs",
-  """        let ready = if unknown.is_empty() {
+  """        let ready = if unknown.is_empty() && carry.is_none() {
             select.ready()
         } else {
             0
